@@ -10,7 +10,7 @@ Open Scope list_scope.
       (any nesting, comments, CDATA, processing instructions, blank and padded character data):
       never the "tag not closed" panic, root = the top-level element, children in order, blank
       text dropped, other text trimmed.  [readable doc] is the part of the document in front of an
-      XML declaration the decoder rejects (version other than 1.0, encoding other than UTF-8):
+      XML declaration the decoder rejects (version other than 1.0, a charset label it does not know):
       the whole document when [decls_ok doc] *)
 Theorem C19_xml_roundtrip : forall doc,
     parse_xml (doc_tokens doc) = Ok (doc_frame (readable doc) ("", [])).
@@ -30,7 +30,7 @@ Print Assumptions C19_xml_roundtrip_single_root.
       and whatever sections (dependencyManagement, plugins, profiles with their own <dependencies>)
       stand before and after, and in however many pieces (split by comments / CDATA boundaries) a
       value's character data comes -- provided the XML declaration (if any) says version 1.0 and
-      UTF-8 (the open finding C19-pom-encoding, refuted below) *)
+      an encoding the decoder's charset reader knows (repaired finding C19-pom-encoding, below) *)
 Theorem C19_maven_deps_exact : forall doc,
     wf_pom_b doc = true -> analysis_maven doc = Ok (spec_maven doc).
 Proof. exact maven_deps_exact. Qed.
@@ -158,11 +158,15 @@ Example C19_example_unused_value :
 Proof. exact ex_unused_value. Qed.
 Print Assumptions C19_example_unused_value.
 
-(* 8. refuted (OPEN finding C19-pom-encoding): outside [decls_ok] the property FAILS on the model
-      of the current code -- a pom declaring ISO-8859-1 yields no dependency at all *)
-Example C19_maven_encoding_refuted :
-  analysis_maven (ex_pom_enc "ISO-8859-1" [ex_dep [XT "org.a"] [XT "aa"] []]) = Ok []
+(* 8. repaired finding C19-pom-encoding (fix: ParseXML installs a CharsetReader): a pom declaring
+      ISO-8859-1 is read like one declaring UTF-8 and satisfies [wf_pom_b]; a declaration naming a
+      charset the reader does not know stays outside [decls_ok] (the decoder stops there) *)
+Example C19_maven_encoding_repaired :
+  analysis_maven (ex_pom_enc "ISO-8859-1" [ex_dep [XT "org.a"] [XT "aa"] []]) = Ok [mkDep "org.a" "aa" ""]
   /\ spec_maven (ex_pom_enc "ISO-8859-1" [ex_dep [XT "org.a"] [XT "aa"] []]) = [mkDep "org.a" "aa" ""]
-  /\ analysis_maven (ex_pom_enc "UTF-8" [ex_dep [XT "org.a"] [XT "aa"] []]) = Ok [mkDep "org.a" "aa" ""].
-Proof. exact maven_encoding_refuted. Qed.
-Print Assumptions C19_maven_encoding_refuted.
+  /\ wf_pom_b (ex_pom_enc "ISO-8859-1" [ex_dep [XT "org.a"] [XT "aa"] []]) = true
+  /\ analysis_maven (ex_pom_enc "UTF-8" [ex_dep [XT "org.a"] [XT "aa"] []]) = Ok [mkDep "org.a" "aa" ""]
+  /\ analysis_maven (ex_pom_enc "x-unknown" [ex_dep [XT "org.a"] [XT "aa"] []]) = Ok []
+  /\ wf_pom_b (ex_pom_enc "x-unknown" [ex_dep [XT "org.a"] [XT "aa"] []]) = false.
+Proof. exact maven_encoding_repaired. Qed.
+Print Assumptions C19_maven_encoding_repaired.
